@@ -9,6 +9,7 @@ import Gnet.Driver.Msq
 import Gnet.Driver.Wake
 import Gnet.Driver.Sockaddr
 import Gnet.Driver.Reactor
+import Gnet.Driver.Engine
 
 def main (args : List String) : IO UInt32 := do
   match args with
@@ -23,4 +24,5 @@ def main (args : List String) : IO UInt32 := do
   | ["wake"] => Gnet.Driver.WakeD.main; return 0
   | ["sockaddr"] => Gnet.Driver.SockaddrD.main; return 0
   | ["reactor"] => Gnet.Driver.ReactorD.main; return 0
+  | ["engine"] => Gnet.Driver.EngineD.main; return 0
   | _ => IO.eprintln "usage: gnetmodel <component>"; return 2
